@@ -544,3 +544,60 @@ def rule_RB(ctx):
         else:
             r.fail(rl[0].key, stmt, 'readlist must move pos only in the statement that receives the successful result', loc=rl[0].loc(stmt))
     return r
+
+
+# ---------------------------------------------------------------------------------------------- NOMOVE
+MOVERS = {'read', 'readlist', 'readto', 'peek', 'peeklist', 'find', 'rfind', 'bytealign', 'pos', 'bitpos', 'bytepos',
+          'append', '__iadd__', 'prepend', 'clear', '__delitem__', '__setitem__', 'replace', 'insert', 'overwrite',
+          '__init__', '__new__', 'fromstring', '__setattr__', '__copy__', 'copy', '__getitem__', '__add__', '__and__', '__or__',
+          '__xor__'}
+NOMOVE_REASONS = {
+    ('reverse', '__setitem__'): 'equal-length slice assignment: the reset in BitStream.__setitem__ is conditional on a length change',
+    ('__imul__', '_clear'): 'n == 0 empties the stream; position 0 is the only valid one',
+    ('__ilshift__', '_clear'): '_truncateleft clears only when asked to remove every bit; _ilshift removes n of 2n bits',
+    ('__irshift__', '_clear'): '_truncateright clears only when asked to remove every bit; _irshift removes n of 2n bits',
+    ('__ilshift__', '__setattr__'): 'slot assignments (_bitstore) take the underscore branch of BitStream.__setattr__, which never touches _pos',
+}
+
+
+def rule_NOMOVE(ctx):
+    """Operations that are not documented to move pos never run (on self) a stream-level function that writes _pos."""
+    m = ctx.m
+    E = get_effects(ctx)
+    r = RuleResult('NOMOVE', 'non-moving BitStream/ConstBitStream operations reach no _pos write on self')
+    n = 0
+    for c in STREAMS:
+        for name, f in public_roots(ctx, c):
+            if name in MOVERS or f.is_classmethod() or f.is_staticmethod():
+                continue
+            n += 1
+            node = ctx.node(f, c)
+            seen = set()
+            work = [(node, (name,))]
+            bad = None
+            while work and bad is None:
+                cur, path = work.pop()
+                if cur in seen:
+                    continue
+                seen.add(cur)
+                edges, selfname = E.edges(cur)
+                for (cn, root, cs) in edges:
+                    if root is None or root != selfname:
+                        continue
+                    g = m.funcs[cn[0]]
+                    gself = g.params()[0] if g.params() else 'self'
+                    if g.cls in STREAMS and any(isinstance(st.value, ast.Name) and st.value.id == gself for st in _pos_stores(g)):
+                        if (name, g.name) in NOMOVE_REASONS:
+                            continue
+                        bad = (g, cs, path + (g.name,))
+                        break
+                    work.append((cn, path + (g.name,)))
+            if bad:
+                g, cs, path = bad
+                r.fail(f.key, f'{c}.{name} -> {g.key.split(":")[1]}', f"{name} is not documented to move the stream position, but on a {c} it runs "
+                       f"{g.key} ({' -> '.join(path)}), which assigns _pos: the next read starts from the wrong place", loc=m.funcs[cur[0]].loc(cs.node))
+            else:
+                r.ok(f'{c}.{name}')
+    if n < 80:
+        raise AnalysisError(f'only {n} non-moving public names examined (floor 80)')
+    return r
